@@ -11,6 +11,7 @@ minus the headers curl / requests add on their own.
 
 from __future__ import annotations
 
+import copy
 import os
 import re
 import socketserver
@@ -86,7 +87,10 @@ CHARS: list[tuple[str, str]] = [
 CHAR = dict(CHARS)
 POSITIONS = ["alone", "a+c", "c+a", "a+c+a"]
 PARTS = ["header", "header_accept", "cookie", "query", "path_raw", "path_gen", "text", "json", "form", "multipart"]
-BODY_PARTS = {"text", "json", "form", "multipart"}
+# payloads that serialise to nothing: the request announces a media type and carries no body (value-independent parts)
+EMPTY_PAYLOAD_PARTS = {"form_nofields": ("form", {}), "form_empty_array": ("form", {"f": []}), "multipart_nofields": ("multipart", {}),
+                       "json_null": ("json", None)}
+BODY_PARTS = {"text", "json", "form", "multipart", *EMPTY_PAYLOAD_PARTS}
 ASCII_ONLY_PARTS = {"header", "header_accept", "cookie"}
 MEDIA = {"text": "text/plain", "json": "application/json", "form": "application/x-www-form-urlencoded", "multipart": "multipart/form-data"}
 
@@ -144,6 +148,12 @@ def items(tier: str, seed: int) -> list[dict]:
                     for pos in POSITIONS:
                         for method in _methods(part):
                             add(part, first, pos, method, second=second)
+    # 4b. media type announced, nothing (or a literal null) to send
+    for part in EMPTY_PAYLOAD_PARTS:
+        for method in _methods(part):
+            add(part, "empty", "alone", method)
+        add(part, "empty", "alone", "POST", scheme="https")
+        add(part, "empty", "alone", "POST", sanitize=True)
     # 5. the command as the engine records it for failed checks (incl. checks that report on a case they derived)
     out.extend(dict(sc) for sc in ENGINE_SCENARIOS)
     return out
@@ -410,6 +420,10 @@ def build_case(item: dict, marker: str) -> Any:
     elif part == "path_gen":
         path = "/c/{m}/{p}"
         kwargs["path_parameters"]["p"] = quote_plus(value)  # the form in which generated cases carry path values
+    elif part in EMPTY_PAYLOAD_PARTS:
+        kind, payload = EMPTY_PAYLOAD_PARTS[part]
+        kwargs["body"] = copy.deepcopy(payload)
+        kwargs["media_type"] = MEDIA[kind]
     elif part in ("text", "json"):
         kwargs["body"] = value
         kwargs["media_type"] = MEDIA[part]
@@ -663,8 +677,8 @@ def vacuity(total: Result, tier: str) -> list[str]:
     c = total.counters
     if c.get("curl_runs", 0) == 0:
         out.append("curl was never executed")
-    for part in PARTS:
-        if c.get(f"reproduced:{part}", 0) == 0 and part != "multipart":
+    for part in [*PARTS, *EMPTY_PAYLOAD_PARTS]:
+        if c.get(f"reproduced:{part}", 0) == 0 and not part.startswith("multipart"):
             out.append(f"no case of part {part} was reproduced faithfully: the comparison cannot succeed")
     if c.get("reproduced_over_https", 0) == 0:
         out.append("no case was reproduced over https (the --insecure slice decided nothing)")
